@@ -382,9 +382,14 @@ def job(arg):
 
 
 def run(tier, seed, jobs):
-    d1 = 3 if tier == "quick" else 5
+    # thorough: depth 4 over the whole alphabet (every first operation, then every pair of first operations as a prefix to use the
+    # cores); depth 5 only from the in-order starts of a transfer
+    d1 = 3 if tier == "quick" else 4
     d2 = 3 if tier == "quick" else 4
     work = [("b1", op, 20, d1) for op in ops_b1()]
+    if tier == "thorough":
+        starts = [op for op in ops_b1() if op[0] == "b1" and op[2] == 0 and op[3] == 1][:6]
+        work += [("b1", (a, b), 20, 4) for a in starts[:4] for b in ops_b1()]      # (behind a prefix of two: total depth 5)
     for rlen in (0, 17, 20, 64, 200, -64, -20) if tier == "thorough" else (17, 64, -64):
         work += [("b2", op, rlen, d2) for op in ops_b2()]
     # long transfers: every gap short, total duration beyond the lifetime (state must be refreshed by each use)
